@@ -209,9 +209,18 @@ func execUpload(vec J, out *Writer) {
 	md5h := func(b []byte) string { return fmt.Sprintf("%x", md5.Sum(b)) }
 	sha1h := func(b []byte) string { return fmt.Sprintf("%x", sha1.Sum(b)) }
 	sha256h := func(b []byte) string { return fmt.Sprintf("%x", sha256.Sum256(b)) }
+	which, _ := vec["lists"].(string) // which of the three file lists the control file carries ("" = all)
 	lists := func(extra string) string {
 		if len(listed) == 0 {
 			return "" // an upload without files has no file list fields at all
+		}
+		switch which {
+		case "sha256only":
+			return fmt.Sprintf("Checksums-Sha256:%s\n", lines(sha256h, ""))
+		case "sha1only":
+			return fmt.Sprintf("Checksums-Sha1:%s\n", lines(sha1h, ""))
+		case "nofiles":
+			return fmt.Sprintf("Checksums-Sha1:%s\nChecksums-Sha256:%s\n", lines(sha1h, ""), lines(sha256h, ""))
 		}
 		return fmt.Sprintf("Checksums-Sha1:%s\nChecksums-Sha256:%s\nFiles:%s\n", lines(sha1h, ""), lines(sha256h, ""), lines(md5h, extra))
 	}
